@@ -267,6 +267,11 @@ Proof.
   cbn [orb].
   destruct (get_dict_size_ok dict ltac:(unfold DICT_SIZE_MAX; lia)) as (ds & Hds & Hdsr & Hds16).
   rewrite Hds. cbn [obind].
+  destruct preset as [pre|].
+  { (* with a preset dictionary the buffer is never shrunk *)
+    cbn [andb]. cbn [obind]. rewrite Hinit. cbn [obind].
+    rewrite (get_dict_size_fix ds) by (unfold DICT_SIZE_MAX; lia). cbn [obind].
+    exists ds. split; [reflexivity|]. split; [lia|]. split; [exact Hds16|]. left. lia. }
   destruct (Z.leb_spec uncomp U64_HALF) as [Hh|Hh]; [destruct (Z.ltb_spec uncomp ds) as [Hlt|Hge]|]; cbn [andb].
   - assert (Hw : wrap32 uncomp = uncomp) by (unfold wrap32; rewrite Z.mod_small; lia).
     rewrite Hw.
@@ -632,28 +637,22 @@ Proof.
 Qed.
 
 (* ---------------------------------------------------------------------------------------------
-   why the second clause of [preset_hyps] is there.  In the MODEL of LZMAReader::construct2 a
-   declared size below the dictionary size replaces the dictionary size by the declared size
-   (minimum 4096) BEFORE LZDecoder::new copies the preset dictionary, so only the last
-   buf_size bytes of the preset are kept and a match that reaches further back (valid for the
-   encoder, whose window is dict_size) is rejected.  Witness: dict_size 8192, a 5000-byte preset,
-   3 bytes of data coded as one match at distance 5000, declared size 3: the writer model
-   accepts the symbols, the reader model fails with the error of lz.repeat (E_OTHER); the same
-   stream with an end marker and unknown size is read back correctly. *)
-Theorem lzma1_preset_declared_size_refuted :
-  exists lc lp pb dict preset data syms stream,
-    0 <= lc <= 8 /\ 0 <= lp <= 4 /\ 0 <= pb <= 4 /\ 4096 <= dict <= 2147483648 /\
-    bytes_ok preset = true /\ bytes_ok data = true /\ no_end syms /\ zlen preset <= dict /\
-    lzma1_write lc lp pb dict preset data syms false false None = Ok stream /\
-    exists s0, lzma1_construct2 stream (zlen data) lc lp pb dict (Some preset) = Ok s0 /\
-      lzma1_read s0 16 = Err E_OTHER.
+   History of the second clause of [preset_hyps].  Before the /repo fix ef8562d, LZMAReader's
+   construct2 replaced the dictionary size by a smaller declared size BEFORE LZDecoder::new copied
+   the preset dictionary, so only the last buf_size bytes of the preset were kept and a match
+   reaching further back (valid for the encoder, whose window is dict_size) was rejected with the
+   error of lz.repeat.  Witness found by this proof and replayed on the real code: dict_size 8192,
+   a 5000-byte preset, data that copies the start of the preset, declared size = length of the
+   data.  The model follows the repaired code (no shrinking when a preset is given); the same
+   witness now reads back correctly, which is checked here by evaluation. *)
+Example lzma1_preset_declared_size_fixed :
+  exists stream s0,
+    lzma1_write 3 0 2 8192 (ex_preset 5000) [0; 1; 2] [SMatch 4999 3] false false None = Ok stream /\
+    lzma1_construct2 stream 3 3 0 2 8192 (Some (ex_preset 5000)) = Ok s0 /\
+    exists s1, lzma1_read s0 16 = Ok ([0; 1; 2], s1).
 Proof.
-  exists 3, 0, 2, 8192, (ex_preset 5000), [0; 1; 2], [SMatch 4999 3].
-  eexists. split; [lia|]. split; [lia|]. split; [lia|]. split; [lia|].
-  split; [vm_compute; reflexivity|]. split; [reflexivity|].
-  split; [intros s [<-|[]]; discriminate|]. split; [vm_compute; discriminate|].
-  split; [vm_compute; reflexivity|].
-  eexists. split; [vm_compute; reflexivity|]. vm_compute. reflexivity.
+  eexists. eexists. split; [vm_compute; reflexivity|]. split; [vm_compute; reflexivity|].
+  eexists. vm_compute. reflexivity.
 Qed.
 
 Example lzma1_preset_declared_size_marker_ok :
@@ -664,4 +663,3 @@ Print Assumptions lzma1_roundtrip_raw.
 Print Assumptions lzma1_roundtrip_preset.
 Print Assumptions lzma1_roundtrip_header.
 Print Assumptions lzma1_read_zero.
-Print Assumptions lzma1_preset_declared_size_refuted.
